@@ -153,16 +153,20 @@ theorem AcqSpec.mono {env : Env} {ph now : Nat} {st : HostSt} {scs scs' : List S
 /-- The full description of `acquireAccessToken`: its effect on the state, and
 that every message it sends is a token request from this state for the wide
 scope or (after a 401) for `first` alone. -/
+-- F39: the scopes are the requestable parts (was: `union first second`, `first`)
 theorem acquireAccessToken_spec (env : Env) (now : Nat) (st : HostSt) (ch : Chal) (ph : Nat)
     (first second : Scope) :
-    AcqSpec env ph now st [union first second, first] (acquireAccessToken env now st ch ph first second) ∧
+    AcqSpec env ph now st [union (requestable first) (requestable second), requestable first]
+      (acquireAccessToken env now st ch ph first second) ∧
     (∀ m ∈ (acquireAccessToken env now st ch ph first second).2.1,
-      TokMsg st ch (union first second) m ∨ TokMsg st ch first m) ∧
+      TokMsg st ch (union (requestable first) (requestable second)) m ∨ TokMsg st ch (requestable first) m) ∧
     (∀ m ∈ (acquireAccessToken env now st ch ph first second).2.1,
       ch.realm ≠ [] ∧ env.realmOk ch.realm = true) ∧
     ((acquireAccessToken env now st ch ph first second).2.2 ≠ none →
       (acquireAccessToken env now st ch ph first second).2.1 ≠ []) := by
   unfold acquireAccessToken
+  generalize requestable first = first
+  generalize requestable second = second
   split
   · -- 401 on the wide request
     have hf := finish_spec env ph now st
@@ -233,6 +237,45 @@ theorem union_unlimited_eq (a b : Scope) : (union a b).unlimited = (a.unlimited 
     split
     · simp [ha, hb]
     · split <;> simp [ha, hb, unionRaw]
+
+/-! F39: `requestable` -/
+
+theorem requestable_limited (s : Scope) : (requestable s).unlimited = false := by
+  unfold requestable
+  split
+  · rfl
+  · rename_i h; simpa using h
+
+theorem requestable_of_limited {s : Scope} (h : s.unlimited = false) : requestable s = s := by
+  simp [requestable, h]
+
+theorem requestable_unlimited {s : Scope} (h : s.unlimited = true) : requestable s = Scope.empty := by
+  simp [requestable, h]
+
+theorem requestable_wf {s : Scope} (h : WF s) : WF (requestable s) := by
+  unfold requestable
+  split
+  · exact wf_empty
+  · exact h
+
+/-- As a set of resource scopes the requestable part is the scope itself: the
+unlimited scope yields no resource scope, like the empty one. -/
+theorem mem_requestable (s : Scope) (r : RS) : Mem r (requestable s) ↔ Mem r s := by
+  unfold requestable
+  split
+  · rename_i h
+    simp [Mem, iter, h, Scope.empty, mergeIter, expand]
+  · exact Iff.rfl
+
+theorem requestable_parseScope (s : Bytes) : requestable (parseScope s) = parseScope s :=
+  requestable_of_limited (parseScope_limited s)
+
+theorem union_requestable_limited (a b : Scope) : (union (requestable a) (requestable b)).unlimited = false := by
+  rw [union_unlimited_eq, requestable_limited, requestable_limited]; rfl
+
+theorem requestable_union_requestable (a b : Scope) :
+    requestable (union (requestable a) (requestable b)) = union (requestable a) (requestable b) :=
+  requestable_of_limited (union_requestable_limited a b)
 
 theorem contains_refl (a : Scope) (ha : WF a) : contains a a = true := by
   cases hu : a.unlimited with
@@ -357,9 +400,9 @@ theorem section1_cases (env : Env) (now : Nat) (st : HostSt) (req : ReqInfo) :
 theorem section2_cases (env : Env) (now : Nat) (st : HostSt) (ch : Chal) (req : ReqInfo) :
     (ch.scheme = .bearer ∧
       section2 env now st ch req =
-        ((acquireAccessToken env now (setChallenge st ch) ch 1 (parseScope ch.scope) (union req.want req.required)).1,
-         (acquireAccessToken env now (setChallenge st ch) ch 1 (parseScope ch.scope) (union req.want req.required)).2.1,
-         match (acquireAccessToken env now (setChallenge st ch) ch 1 (parseScope ch.scope) (union req.want req.required)).2.2 with
+        ((acquireAccessToken env now (setChallenge st ch) ch 1 (parseScope ch.scope) (union (requestable req.want) (requestable req.required))).1,
+         (acquireAccessToken env now (setChallenge st ch) ch 1 (parseScope ch.scope) (union (requestable req.want) (requestable req.required))).2.1,
+         match (acquireAccessToken env now (setChallenge st ch) ch 1 (parseScope ch.scope) (union (requestable req.want) (requestable req.required))).2.2 with
          | some a => .added (.bearer a) true
          | none => .error)) ∨
     (ch.scheme = .basic ∧ ∃ u p, st.basic = some (u, p) ∧
@@ -371,7 +414,7 @@ theorem section2_cases (env : Env) (now : Nat) (st : HostSt) (ch : Chal) (req : 
   | bearer =>
     left
     refine ⟨rfl, ?_⟩
-    cases h : acquireAccessToken env now (setChallenge st ch) ch 1 (parseScope ch.scope) (union req.want req.required) with
+    cases h : acquireAccessToken env now (setChallenge st ch) ch 1 (parseScope ch.scope) (union (requestable req.want) (requestable req.required)) with
     | mk st1 rest =>
       cases rest with
       | mk ms r => cases r <;> rfl
@@ -508,8 +551,8 @@ theorem section1_J (env : Env) (now : Nat) (st : HostSt) (req : ReqInfo) (hJ : J
     intro s hs
     simp at hs
     rcases hs with rfl | rfl
-    · exact union_wf _ _ hr hw
-    · exact hr
+    · exact union_wf _ _ (requestable_wf hr) (requestable_wf hw)
+    · exact requestable_wf hr
   · exact J_prune hJ now
   · exact J_prune hJ now
 
@@ -549,12 +592,14 @@ contains the required scope; nothing is sent and the state is only pruned), or i
 was just delivered by the token server in answer to a request made with the
 refresh token for `required ∪ want` (or, after a 401, `required` alone), and is
 recorded under that scope with an expiry at least a second ahead. -/
+-- F39: `required`, `want` are their requestable parts in the request and in the cache
 theorem section1_bearer (env : Env) (now : Nat) (st : HostSt) (req : ReqInfo) {a : Atom}
     (h : (section1 env now st req).2.2 = some (.bearer a)) :
     (∃ t ∈ st.toks, t.tok = a ∧ now + marginMs ≤ t.expires ∧ contains t.scope req.required = true ∧
         (section1 env now st req).2.1 = [] ∧ (section1 env now st req).1 = prune now st) ∨
     (∃ ch sc tk ac rf e, st.challenge = some ch ∧ ch.scheme = .bearer ∧ st.refresh ≠ none ∧
-        (sc = union req.required req.want ∨ sc = req.required) ∧ Delivered env 0 tk ac rf e ∧
+        (sc = union (requestable req.required) (requestable req.want) ∨ sc = requestable req.required) ∧
+        Delivered env 0 tk ac rf e ∧
         a = ⟨st.host, .access, pickToken tk ac⟩ ∧
         (section1 env now st req).1.toks = (prune now st).toks ++ [⟨sc, a, now + lifeOf e * 1000⟩] ∧
         (section1 env now st req).2.1 ≠ []) := by
@@ -610,10 +655,12 @@ theorem section1_no_challenge (env : Env) (now : Nat) (st : HostSt) (req : ReqIn
 /-- Token requests in the first section go to the realm of the stored Bearer
 challenge, carry the stored refresh token or Basic credentials, and ask for
 `required ∪ want` or `required`. -/
+-- F39: the requestable parts
 theorem section1_tokmsgs (env : Env) (now : Nat) (st : HostSt) (req : ReqInfo) :
     ∀ m ∈ (section1 env now st req).2.1,
       ∃ ch, st.challenge = some ch ∧ ch.scheme = .bearer ∧ st.refresh ≠ none ∧
-        (TokMsg (prune now st) ch (union req.required req.want) m ∨ TokMsg (prune now st) ch req.required m) ∧
+        (TokMsg (prune now st) ch (union (requestable req.required) (requestable req.want)) m ∨
+          TokMsg (prune now st) ch (requestable req.required) m) ∧
         ch.realm ≠ [] ∧ env.realmOk ch.realm = true := by
   intro m hm
   rcases section1_cases env now st req with ⟨t, ht, he⟩ | ⟨_, _, he⟩ | ⟨_, ch, rt, hch, hsch, hrt, he⟩ |
@@ -687,8 +734,9 @@ theorem section2_J (env : Env) (now : Nat) (st : HostSt) (ch : Chal) (req : ReqI
     intro s hs
     simp at hs
     rcases hs with rfl | rfl
-    · exact union_wf _ _ (parseScope_wf _) (union_wf _ _ hw hr)
-    · exact parseScope_wf _
+    · exact union_wf _ _ (requestable_wf (parseScope_wf _))
+        (requestable_wf (union_wf _ _ (requestable_wf hw) (requestable_wf hr)))
+    · exact requestable_wf (parseScope_wf _)
   · exact J_setChallenge hJ hc
   · exact J_setChallenge hJ hc
 
@@ -698,7 +746,7 @@ theorem section2_own (env : Env) (now : Nat) (st : HostSt) (ch : Chal) (req : Re
     (∀ m ∈ (section2 env now st ch req).2.1, MsgOwn st.host m) ∧
     (∀ h acq, (section2 env now st ch req).2.2 = .added h acq → AuthOwn st.host h) := by
   rcases section2_cases env now st ch req with ⟨_, h⟩ | ⟨_, u, p, hb, h⟩ | ⟨_, _, h⟩ <;> rw [h]
-  · have hs := acquireAccessToken_spec env now (setChallenge st ch) ch 1 (parseScope ch.scope) (union req.want req.required)
+  · have hs := acquireAccessToken_spec env now (setChallenge st ch) ch 1 (parseScope ch.scope) (union (requestable req.want) (requestable req.required))
     have hJ' := J_setChallenge hJ hc
     refine ⟨?_, ?_⟩
     · intro m hm
@@ -720,18 +768,20 @@ server in answer to a request for `challenge scope ∪ (want ∪ required)` (or,
 after a 401, the challenge scope alone); it is recorded under the scope that was
 asked for, which contains the challenge's scope, with an expiry at least a
 second ahead; and `tokenAcquired` is reported. -/
+-- F39: `want`, `required` are their requestable parts
 theorem section2_bearer (env : Env) (now : Nat) (st : HostSt) (ch : Chal) (req : ReqInfo)
     (hr : WF req.required) (hw : WF req.want) {a : Atom} {acq : Bool}
     (h : (section2 env now st ch req).2.2 = .added (.bearer a) acq) :
     ch.scheme = .bearer ∧ acq = true ∧
     ∃ sc tk ac rf e,
-      (sc = union (parseScope ch.scope) (union req.want req.required) ∨ sc = parseScope ch.scope) ∧
+      (sc = union (parseScope ch.scope) (union (requestable req.want) (requestable req.required)) ∨ sc = parseScope ch.scope) ∧
       Delivered env 1 tk ac rf e ∧ a = ⟨st.host, .access, pickToken tk ac⟩ ∧
       (section2 env now st ch req).1.toks = st.toks ++ [⟨sc, a, now + lifeOf e * 1000⟩] ∧
       (section2 env now st ch req).2.1 ≠ [] ∧
       contains sc (parseScope ch.scope) = true := by
   rcases section2_cases env now st ch req with ⟨hsch, he⟩ | ⟨_, u, p, hb, he⟩ | ⟨_, _, he⟩ <;> rw [he] at h ⊢
-  · have hs := acquireAccessToken_spec env now (setChallenge st ch) ch 1 (parseScope ch.scope) (union req.want req.required)
+  · have hs := acquireAccessToken_spec env now (setChallenge st ch) ch 1 (parseScope ch.scope) (union (requestable req.want) (requestable req.required))
+    rw [requestable_parseScope, requestable_union_requestable] at hs
     rcases hs.1.toks with ⟨h1, _⟩ | ⟨sc, tk, ac, rf, e, hsc, hd, _, h1, h2⟩
     · simp [h1] at h
     · simp only [h1, Sec2.added.injEq, AuthHdr.bearer.injEq] at h
@@ -739,7 +789,7 @@ theorem section2_bearer (env : Env) (now : Nat) (st : HostSt) (ch : Chal) (req :
       refine ⟨hsch, rfl, sc, tk, ac, rf, e, by simpa using hsc, hd, rfl, h2, hs.2.2.2 (by simp [h1]), ?_⟩
       simp at hsc
       rcases hsc with rfl | rfl
-      · exact contains_union_left _ _ (parseScope_wf _) (union_wf _ _ hw hr)
+      · exact contains_union_left _ _ (parseScope_wf _) (union_wf _ _ (requestable_wf hw) (requestable_wf hr))
       · exact contains_refl _ (parseScope_wf _)
   · simp at h
   · simp at h
@@ -750,7 +800,7 @@ theorem section2_basic (env : Env) (now : Nat) (st : HostSt) (ch : Chal) (req : 
     {u p : Atom} {acq : Bool} (h : (section2 env now st ch req).2.2 = .added (.basic u p) acq) :
     ch.scheme = .basic ∧ acq = false ∧ st.basic = some (u, p) ∧ (section2 env now st ch req).2.1 = [] := by
   rcases section2_cases env now st ch req with ⟨hsch, he⟩ | ⟨hsch, u', p', hb, he⟩ | ⟨_, _, he⟩ <;> rw [he] at h ⊢
-  · cases hx : (acquireAccessToken env now (setChallenge st ch) ch 1 (parseScope ch.scope) (union req.want req.required)).2.2 <;>
+  · cases hx : (acquireAccessToken env now (setChallenge st ch) ch 1 (parseScope ch.scope) (union (requestable req.want) (requestable req.required))).2.2 <;>
       simp [hx] at h
   · simp at h; obtain ⟨⟨rfl, rfl⟩, rfl⟩ := h
     exact ⟨hsch, rfl, hb, rfl⟩
@@ -760,7 +810,7 @@ theorem section2_added_none (env : Env) (now : Nat) (st : HostSt) (ch : Chal) (r
     (section2 env now st ch req).2.2 ≠ .added .none acq := by
   intro h
   rcases section2_cases env now st ch req with ⟨hsch, he⟩ | ⟨hsch, u', p', hb, he⟩ | ⟨_, _, he⟩ <;> rw [he] at h
-  · cases hx : (acquireAccessToken env now (setChallenge st ch) ch 1 (parseScope ch.scope) (union req.want req.required)).2.2 <;>
+  · cases hx : (acquireAccessToken env now (setChallenge st ch) ch 1 (parseScope ch.scope) (union (requestable req.want) (requestable req.required))).2.2 <;>
       simp [hx] at h
   · simp at h
   · simp at h
@@ -768,15 +818,17 @@ theorem section2_added_none (env : Env) (now : Nat) (st : HostSt) (ch : Chal) (r
 /-- Token requests in the second section answer a Bearer challenge: they go to
 its realm and ask for `challenge scope ∪ (want ∪ required)` or the challenge
 scope. -/
+-- F39: `want`, `required` are their requestable parts
 theorem section2_tokmsgs (env : Env) (now : Nat) (st : HostSt) (ch : Chal) (req : ReqInfo) :
     ∀ m ∈ (section2 env now st ch req).2.1,
       ch.scheme = .bearer ∧
-      (TokMsg (setChallenge st ch) ch (union (parseScope ch.scope) (union req.want req.required)) m ∨
+      (TokMsg (setChallenge st ch) ch (union (parseScope ch.scope) (union (requestable req.want) (requestable req.required))) m ∨
         TokMsg (setChallenge st ch) ch (parseScope ch.scope) m) ∧
       ch.realm ≠ [] ∧ env.realmOk ch.realm = true := by
   intro m hm
   rcases section2_cases env now st ch req with ⟨hsch, he⟩ | ⟨hsch, u', p', hb, he⟩ | ⟨_, _, he⟩ <;> rw [he] at hm
-  · have hs := acquireAccessToken_spec env now (setChallenge st ch) ch 1 (parseScope ch.scope) (union req.want req.required)
+  · have hs := acquireAccessToken_spec env now (setChallenge st ch) ch 1 (parseScope ch.scope) (union (requestable req.want) (requestable req.required))
+    rw [requestable_parseScope, requestable_union_requestable] at hs
     exact ⟨hsch, hs.2.1 m hm, hs.2.2.1 m hm⟩
   · simp at hm
   · simp at hm
@@ -1183,6 +1235,8 @@ theorem roundTrip_token_realm (env : Env) (now : Nat) (st : HostSt) (req : ReqIn
   · simp [Msg.realm?] at hr
 
 /-- Where a Bearer token presented to the registry during a call comes from. -/
+-- F39: a token acquired pre-emptively is recorded under a scope that contains the
+-- requestable part of the required scope (the required scope itself when it is limited)
 theorem roundTrip_bearer (env : Env) (now : Nat) (st : HostSt) (req : ReqInfo)
     (hr : WF req.required) (hw : WF req.want) {host : Bytes} {a : Atom}
     (hm : Msg.registry host (.bearer a) ∈ (roundTrip env now st req).2.1) :
@@ -1190,7 +1244,7 @@ theorem roundTrip_bearer (env : Env) (now : Nat) (st : HostSt) (req : ReqInfo)
     (∃ t ∈ st.toks, t.tok = a ∧ now + marginMs ≤ t.expires ∧ contains t.scope req.required = true) ∨
     -- delivered during the first section (refresh-token flow) for a scope that contains the required scope
     (∃ sc tk ac rf e, Delivered env 0 tk ac rf e ∧ a = ⟨st.host, .access, pickToken tk ac⟩ ∧
-        contains sc req.required = true ∧
+        contains sc (requestable req.required) = true ∧
         (⟨sc, a, now + lifeOf e * 1000⟩ : Tok) ∈ (section1 env now st req).1.toks) ∨
     -- delivered in answer to the challenge of the first response, for a scope that contains the challenge's
     (∃ hdrs ch sc tk ac rf e, env.reg 0 = .resp 401 hdrs ∧ chalOf st.host hdrs = some ch ∧
@@ -1206,8 +1260,8 @@ theorem roundTrip_bearer (env : Env) (now : Nat) (st : HostSt) (req : ReqInfo)
     · exact Or.inl ⟨t, ht, rfl, hexp, hcon⟩
     · refine Or.inr (Or.inl ⟨sc, tk, ac, rf, e, hd, ha, ?_, ?_⟩)
       · rcases hsc with rfl | rfl
-        · exact contains_union_left _ _ hr hw
-        · exact contains_refl _ hr
+        · exact contains_union_left _ _ (requestable_wf hr) (requestable_wf hw)
+        · exact contains_refl _ (requestable_wf hr)
       · rw [htoks]; simp
   · obtain ⟨_, h' | h', _⟩ := section2_tokmsgs env now _ ch req _ h <;>
       exact absurd (tokMsg_not_registry h') (by simp [Msg.isRegistry])
@@ -1341,6 +1395,8 @@ theorem acquireAccessToken_recorded (env : Env) (now : Nat) (st : HostSt) (ch : 
     (h : (acquireAccessToken env now st ch ph first second).1.toks = st.toks ++ [⟨sc, a, exp⟩]) :
     ∃ m ∈ (acquireAccessToken env now st ch ph first second).2.1, TokMsg st ch sc m := by
   unfold acquireAccessToken at h ⊢
+  generalize requestable first = first at h ⊢
+  generalize requestable second = second at h ⊢
   split
   · rename_i h401
     simp only [h401, if_true] at h
@@ -1447,7 +1503,7 @@ theorem section2_toks_prov (env : Env) (now : Nat) (st : HostSt) (ch : Chal) (re
       t ∈ st.toks ∨ ∃ tk ac rf ex, Delivered env 1 tk ac rf ex ∧ t.tok.val = pickToken tk ac := by
   intro t ht
   rcases section2_cases env now st ch req with ⟨hsch, he⟩ | ⟨hsch, u', p', hb, he⟩ | ⟨_, _, he⟩ <;> rw [he] at ht
-  · have hs := acquireAccessToken_spec env now (setChallenge st ch) ch 1 (parseScope ch.scope) (union req.want req.required)
+  · have hs := acquireAccessToken_spec env now (setChallenge st ch) ch 1 (parseScope ch.scope) (union (requestable req.want) (requestable req.required))
     rcases hs.1.toks with ⟨_, h2⟩ | ⟨sc, tk, ac, rf, ex, _, hd, _, _, h2⟩
     · rw [h2] at ht; exact Or.inl ht
     · rw [h2] at ht
@@ -1478,6 +1534,71 @@ theorem reach_known {host : Bytes} {e : ConfigEntry} {st : HostSt} {envs : List 
     rcases section2_toks_prov env now _ ch req t ht with h | ⟨tk, ac, rf, ex, hd, hv⟩
     · exact (ih t h).mono env
     · exact Or.inr ⟨env, by simp, 1, tk, ac, rf, ex, hd, hv⟩
+
+/-! F39: a token server is never asked for the unlimited scope, and nothing it delivers is cached under it -/
+
+theorem section1_toks_limited (env : Env) (now : Nat) (st : HostSt) (req : ReqInfo) :
+    ∀ t ∈ (section1 env now st req).1.toks, t ∈ st.toks ∨ t.scope.unlimited = false := by
+  intro t ht
+  have hp : ∀ t ∈ (prune now st).toks, t ∈ st.toks := fun t h => ((mem_prune_toks now st t).mp h).1
+  rcases section1_cases env now st req with ⟨t', ht', he⟩ | ⟨_, _, he⟩ | ⟨_, ch, rt, hch, hsch, hrt, he⟩ |
+    ⟨_, ch, u', p', hch, hsch, hb, he⟩ | ⟨_, ch, hch, _, he⟩ <;> rw [he] at ht
+  · exact Or.inl (hp t ht)
+  · exact Or.inl (hp t ht)
+  · have hs := acquireAccessToken_spec env now (prune now st) ch 0 req.required req.want
+    rcases hs.1.toks with ⟨_, h2⟩ | ⟨sc, tk, ac, rf, ex, hsc, _, _, _, h2⟩
+    · rw [h2] at ht; exact Or.inl (hp t ht)
+    · rw [h2] at ht
+      rcases List.mem_append.mp ht with h3 | h3
+      · exact Or.inl (hp t h3)
+      · simp at h3; subst h3
+        simp at hsc
+        rcases hsc with rfl | rfl
+        · exact Or.inr (union_requestable_limited _ _)
+        · exact Or.inr (requestable_limited _)
+  · exact Or.inl (hp t ht)
+  · exact Or.inl (hp t ht)
+
+theorem section2_toks_limited (env : Env) (now : Nat) (st : HostSt) (ch : Chal) (req : ReqInfo) :
+    ∀ t ∈ (section2 env now st ch req).1.toks, t ∈ st.toks ∨ t.scope.unlimited = false := by
+  intro t ht
+  rcases section2_cases env now st ch req with ⟨hsch, he⟩ | ⟨hsch, u', p', hb, he⟩ | ⟨_, _, he⟩ <;> rw [he] at ht
+  · have hs := acquireAccessToken_spec env now (setChallenge st ch) ch 1 (parseScope ch.scope) (union (requestable req.want) (requestable req.required))
+    rcases hs.1.toks with ⟨_, h2⟩ | ⟨sc, tk, ac, rf, ex, hsc, _, _, _, h2⟩
+    · rw [h2] at ht; exact Or.inl ht
+    · rw [h2] at ht
+      rcases List.mem_append.mp ht with h3 | h3
+      · exact Or.inl h3
+      · simp at h3; subst h3
+        simp at hsc
+        rcases hsc with rfl | rfl
+        · exact Or.inr (union_requestable_limited _ _)
+        · exact Or.inr (requestable_limited _)
+  · exact Or.inl ht
+  · exact Or.inl ht
+
+/-- In every reachable state the only cached token good for every scope is the
+configured access token. -/
+theorem reach_unlimited_configured {host : Bytes} {e : ConfigEntry} {st : HostSt} {envs : List Env}
+    (h : Reach host e st envs) :
+    ∀ t ∈ st.toks, t.scope.unlimited = true → t.tok = ⟨host, .access, e.accessToken⟩ ∧ e.accessToken ≠ [] := by
+  induction h with
+  | init =>
+    intro t ht _
+    simp only [initSt] at ht
+    split at ht
+    · simp at ht
+    · rename_i hne; simp at ht; subst ht; exact ⟨rfl, hne⟩
+  | sec1 env now req _ _ _ ih =>
+    intro t ht hu
+    rcases section1_toks_limited env now _ req t ht with h | h
+    · exact ih t h hu
+    · rw [h] at hu; cases hu
+  | sec2 env now ch req _ _ _ _ ih =>
+    intro t ht hu
+    rcases section2_toks_limited env now _ ch req t ht with h | h
+    · exact ih t h hu
+    · rw [h] at hu; cases hu
 
 /-- A sequential call keeps the state reachable. -/
 theorem reach_roundTrip {host : Bytes} {e : ConfigEntry} {st : HostSt} {envs : List Env}
